@@ -1,7 +1,7 @@
 SPECIFICATION Spec
 CONSTANTS MaxLen = 4
           ClipBug = FALSE
-          FrozenBug = FALSE
+          FrozenBug = TRUE
 INVARIANT Range
 INVARIANT Monotone
 INVARIANT EndPoints
